@@ -178,6 +178,7 @@ def gen_repr(rng, chain=False):
     """input representation / planner options of the impl runner (harness/impl/c04_impl.py)"""
     rp = {"labels": rng.choice(["int"] * 5 + ["str", "str", "tuple", "tuple", "falsy", "falsy"]),
           "dist_objects": rng.random() < .3, "actions_tuple": rng.random() < .7, "actions_shared": rng.random() < .4,
+          "dist_shared": rng.random() < .3, "fresh_planner_last": chain and rng.random() < .4,
           "init": rng.choice(["object", "object", "callable", "initial_state"]),
           "int_numbers": rng.random() < .25, "no_listener": rng.random() < .15}
     if rng.random() < .05:
@@ -213,6 +214,51 @@ def modify_mdp(rng, mc):
                 mc["trans"][k] = old
             else:
                 tags.append("tiny_probability")
+    def live_rows(k):
+        return [key for key, row in mc["trans"].items() if not mc["absorbing"][int(key.split(",")[0])]
+                and len([1 for _, pr in row if F(pr) != 0]) == k]
+    if nonabs and rng.random() < .10:          # a branch of probability 2^-27..2^-40 that DECIDES the value: reward ~ -1/p
+        rows = live_rows(2)
+        if rows:
+            import copy
+            saved = copy.deepcopy(mc)
+            key = rng.choice(rows)
+            s_, a_ = map(int, key.split(","))
+            e = rng.choice([27, 30, 40])
+            t = F(1, 2**e)
+            pos = [ns for ns, pr in mc["trans"][key] if F(pr) != 0]
+            rare = rng.choice(pos)
+            mc["trans"][key] = [[ns, (("0" if F(pr) == 0 else str(t if ns == rare else 1 - t)))] for ns, pr in mc["trans"][key]]
+            mc["reward"]["%d,%d,%d" % (s_, a_, rare)] = str(-rng.choice([1, 2, 3]) * 2**e)
+            P, R, av, absf, ini = arrays(mc)
+            W = max_steps(P, av, absf)
+            if W is None or min(W) < 0 or max(W) > 300:
+                mc.clear(); mc.update(saved)
+            else:
+                tags.append("tiny_probability_big_reward")
+    if sum(mc["absorbing"]) == 1 and rng.random() < .3:   # initial entry of probability 2^-30 on the (single) goal state
+        g_ = mc["absorbing"].index(True)
+        if all(s_ != g_ for s_, _ in mc["init"]):
+            k0 = next(i for i, (s_, pr) in enumerate(mc["init"]) if F(pr) > F(1, 2**20))
+            t = F(1, 2**rng.choice([30, 45]))
+            mc["init"][k0][1] = str(F(mc["init"][k0][1]) - t)
+            mc["init"].append([g_, str(t)])
+            tags.append("tiny_initial_entry")
+    if nonabs and rng.random() < .2:           # non-dyadic rows / rewards: thirds, tenths (float row sum != 1.0), sevenths
+        pats = {2: [["1/3", "2/3"], ["1/10", "9/10"], ["3/7", "4/7"], ["3/10", "7/10"]],
+                3: [["1/3", "1/3", "1/3"], ["7/10", "1/5", "1/10"], ["1/7", "2/7", "4/7"], ["1/10", "3/10", "3/5"]]}
+        hit = False
+        for k in (2, 3):
+            for key in live_rows(k):
+                if rng.random() < .7:
+                    it = iter(rng.sample(rng.choice(pats[k]), k))
+                    mc["trans"][key] = [[ns, ("0" if F(pr) == 0 else next(it))] for ns, pr in mc["trans"][key]]
+                    hit = True
+        for key in list(mc["reward"]):
+            if rng.random() < .3 and not mc["absorbing"][int(key.split(",")[0])]:
+                mc["reward"][key] = str(F(mc["reward"][key]) * rng.choice([F(1, 3), F(1, 10), F(7, 10)]))
+        if hit:
+            tags.append("nondyadic_numbers")
     cand = [s for s in nonabs if len(mc["actions"][s]) >= 2]
     if cand and rng.random() < .10:            # two actions whose values differ by 2^-30: must be told apart
         s = rng.choice(cand)
@@ -250,6 +296,8 @@ def gen_case(rng, tier):
         margin = rng.choice(["1", "5"])           # threshold 1 (also passed as an int)
     if "scaled_rewards" in tags and margin == "1/10000":
         margin = "1/100"
+    if "tiny_probability_big_reward" in tags and F(margin) < F(1, 100):
+        margin = "1/100"                          # values of order 2^30..2^40
     case = {"mdp": mc, "heuristic": [str(x) for x in h], "kind": kind, "margin": margin,
             "seed": rng.randint(0, 4 if tier == "quick" else 29), "randomize": rng.random() < .5,
             "iterations": 4000, "max_log": 600 if tier == "quick" else 1500, "repr": gen_repr(rng), "tags": tags}
@@ -292,8 +340,16 @@ def gen_chain(rng, tier):
     the heuristic is admissible for both (constant bound, or pointwise max of the optima + slack)"""
     gamma = "1" if rng.random() < .35 else None
     mA = gen_mdp.gen_mdp(rng, nmax=5 if tier == "quick" else 7, amax=3, gamma=gamma, proper=True, min_states=2)
-    mB = perturb(rng, mA)
     g = F(mA["gamma"])
+    if rng.random() < .3:                      # second problem of a DIFFERENT size (labels overlap, meanings differ)
+        mB = gen_mdp.gen_mdp(rng, nmax=5 if tier == "quick" else 7, amax=3, gamma=mA["gamma"], proper=True, min_states=2)
+        rmax = max([F(0)] + [F(r) for mc in (mA, mB) for r in mc["reward"].values()])
+        h = [F(0) if rmax == 0 else rmax / (1 - g)] * max(mA["n"], mB["n"])
+        return {"chain": [mA, mB, mA], "mdp": mA, "heuristic": [str(up_double(x)) for x in h], "kind": "chain-const-resized",
+                "margin": rng.choice(MARGINS), "seed": rng.randint(0, 4 if tier == "quick" else 29),
+                "randomize": rng.random() < .5, "iterations": 4000, "max_log": 600 if tier == "quick" else 1500,
+                "repr": dict(gen_repr(rng, chain=True), max_trial_length=None, seed_none=False), "tags": ["chain_resized"]}
+    mB = perturb(rng, mA)
     vs = []
     for mc in (mA, mB):
         P, R, av, absf, ini = arrays(mc)
@@ -343,7 +399,7 @@ def prepare(case, res):
     p.P, p.R, p.av, p.absf, p.ini = arrays(mc)
     p.g = F(mc["gamma"])
     p.margin = F(case["margin"])
-    p.h = [F(x) for x in case["heuristic"]]
+    p.h = [F(x) for x in case["heuristic"]][:n]
     p.Vs = exact_vstar(p.P, p.R, p.av, p.absf, p.g)
     p.W = max_steps(p.P, p.av, p.absf)
     p.V = [vlib.frac(x) for x in res["V"]]
@@ -677,6 +733,27 @@ def gen_tight(rng, tier):
         tags.append("huge_rewards")
     else:
         margin = rng.choice(["1/10000000000", "1/1000000000000"])
+    cand = [s for s in range(mc["n"]) if not mc["absorbing"][s] and len(mc["actions"][s]) >= 2]
+    if cand and rng.random() < .9:             # a copy of an action that is worse by a RELATIVE 2^-20 / 2^-17 only
+        s = rng.choice(cand)
+        a, b = rng.sample(mc["actions"][s], 2)
+        row = mc["trans"]["%d,%d" % (s, a)]
+        mc["trans"]["%d,%d" % (s, b)] = [list(x) for x in row]
+        for key in [k for k in mc["reward"] if k.startswith("%d,%d," % (s, b))]:
+            del mc["reward"][key]
+        rel = F(1, 2**rng.choice([17, 20]))
+        mag = max([F(1)] + [abs(F(r)) for r in mc["reward"].values()])
+        first = True
+        for ns, pr in row:
+            if F(pr) == 0:
+                continue
+            r = F(mc["reward"].get("%d,%d,%d" % (s, a, ns), "0"))
+            if first:
+                r -= mag * rel
+                first = False
+            if r != 0:
+                mc["reward"]["%d,%d,%d" % (s, b, ns)] = str(r)
+        tags.append("near_tie_relative")
     P, R, av, absf, ini = arrays(mc)
     Vs = exact_vstar(P, R, av, absf, F(mc["gamma"]))
     kind = rng.choice(["const", "const", "slack", "nonmono"])
@@ -687,6 +764,55 @@ def gen_tight(rng, tier):
             "seed": rng.randint(0, 4 if tier == "quick" else 29), "randomize": rng.random() < .5,
             "iterations": 20000, "max_log": 600 if tier == "quick" else 1500,
             "repr": dict(gen_repr(rng), max_trial_length=None), "tags": tags}
+
+
+def gen_corridor(rng, tier):
+    """corridors: n states in a row (n not a power of two), the goal at one end, so greedy paths have n-1
+    steps; moving succeeds w.p. 7/8 or 1, a second action jumps two cells at a higher cost; integer costs"""
+    n = rng.choice([6, 7, 9, 10, 11] if tier == "quick" else [6, 7, 9, 10, 11, 12, 13])
+    slip = rng.random() < .6
+    mc = {"n": n, "nA": 2, "actions": [[0, 1]] * n, "trans": {}, "reward": {}, "absorbing": [False] * (n - 1) + [True],
+          "init": [[0, "1"]] if rng.random() < .6 else [[0, "1/2"], [n // 2, "1/2"]], "gamma": rng.choice(["1", "1", "9/10"])}
+    for s in range(n):
+        if s == n - 1:
+            mc["trans"]["%d,0" % s] = [[s, "1"]]
+            mc["trans"]["%d,1" % s] = [[s, "1"]]
+            continue
+        nx, jp = s + 1, min(s + 2, n - 1)
+        mc["trans"]["%d,0" % s] = [[nx, "7/8"], [s, "1/8"]] if slip else [[nx, "1"]]
+        mc["trans"]["%d,1" % s] = [[jp, "3/4"], [s, "1/4"]] if slip else [[jp, "1"]]
+        for ns, pr in mc["trans"]["%d,0" % s]:
+            mc["reward"]["%d,0,%d" % (s, ns)] = "-1"
+        for ns, pr in mc["trans"]["%d,1" % s]:
+            mc["reward"]["%d,1,%d" % (s, ns)] = str(-rng.choice([2, 3]))
+    P, R, av, absf, ini = arrays(mc)
+    Vs = exact_vstar(P, R, av, absf, F(mc["gamma"]))
+    kind = rng.choice(["const", "hops", "slack"])
+    if kind == "hops" and mc["gamma"] == "1":
+        h = [F(-(x or 0)) for x in hops(mc)]
+    else:
+        kind = "const" if kind == "hops" else kind
+        h = make_heuristic(rng, kind, mc, Vs, absf)
+    return {"mdp": mc, "heuristic": [str(x) for x in h], "kind": "corridor-" + kind, "margin": rng.choice(["1/10", "1/100"]),
+            "seed": rng.randint(0, 4), "randomize": rng.random() < .5, "iterations": 4000,
+            "max_log": 600 if tier == "quick" else 1500, "repr": dict(gen_repr(rng), max_trial_length=None), "tags": ["corridor"]}
+
+
+def gen_long_trial(rng, tier):
+    """trials far beyond 1000 steps: the only way on succeeds w.p. 1/1024 (2^-10) per attempt"""
+    stay = F(1023, 1024)
+    mc = {"n": 3, "nA": 2, "actions": [[0, 1], [0], [0]],
+          "trans": {"0,0": [[0, str(stay)], [1, str(1 - stay)]], "0,1": [[0, str(stay)], [2, str(1 - stay)]],
+                    "1,0": [[2, "1"]], "2,0": [[2, "1"]]},
+          "reward": {"0,0,0": "-1/1024", "0,0,1": "-1/1024", "0,1,0": "-1/512", "0,1,2": "-1/512", "1,0,2": "-1/4"},
+          "absorbing": [False, False, True], "init": [[0, "1"]], "gamma": rng.choice(["1", "1", "7/8"])}
+    P, R, av, absf, ini = arrays(mc)
+    Vs = exact_vstar(P, R, av, absf, F(mc["gamma"]))
+    kind = rng.choice(["exact", "slack"])
+    h = make_heuristic(rng, kind, mc, Vs, absf)
+    return {"mdp": mc, "heuristic": [str(x) for x in h], "kind": "longtrial-" + kind, "margin": "1/100",
+            "seed": rng.randint(0, 4), "randomize": rng.random() < .5, "iterations": 4000, "max_log": 300,
+            "repr": dict(gen_repr(rng), max_trial_length=None), "tags": ["long_trials"]}
 
 
 def regression_cases():
@@ -737,7 +863,9 @@ def run(ctx):
         cases = [gen_case(ctx.rng, tier) for _ in range(ncases)] + regression_cases() \
             + [gen_chain(ctx.rng, tier) for _ in range(nchains)] \
             + [gen_routing(ctx.rng, tier) for _ in range(nrouting)] + tie_scenarios() + shared_list_scenarios() \
-            + [gen_tight(ctx.rng, tier) for _ in range(ntight)]
+            + [gen_tight(ctx.rng, tier) for _ in range(ntight)] \
+            + [gen_corridor(ctx.rng, tier) for _ in range(6 if tier == "quick" else 100)] \
+            + [gen_long_trial(ctx.rng, tier) for _ in range(2 if tier == "quick" else 20)]
     shards = min(ctx.jobs, 4 if tier == "quick" else 16)
     impl = ctx.impl("c04_impl.py", {"cases": cases}, shards=shards)["results"]
     # chains (one planner object reused on several problems) are judged step by step, each step with
@@ -748,7 +876,7 @@ def run(ctx):
     cnt = {k: 0 for k in ["cases", "cert_checks", "replays", "replay_ops", "predictions", "predicted_calls",
                           "nonmonotone", "nonmonotone_cert_ok", "nonmonotone_cert_rejects", "nonadmissible_skipped",
                           "returned_policy_differs_from_labelled_greedy", "untouched_labelled_states",
-                          "recomputed_greedy_differs_from_recorded_action", "regression_cases", "replay_skipped_long", "chain_steps", "chain_later_steps", "soft_unfinished", "exact_ties_distinct_successors", "margin_below_1e-9_of_values",
+                          "recomputed_greedy_differs_from_recorded_action", "regression_cases", "replay_skipped_long", "chain_steps", "chain_later_steps", "soft_unfinished", "exact_ties_distinct_successors", "margin_below_1e-9_of_values", "margin_below_1e-5_of_values", "n_equals_nA", "single_action_everywhere", "trial_steps_over_1000", "max_states",
                           "absorbing_initial_mass", "zero_prob_initial_entry", "converged_attr_missing",
                           "absorbing_untouched_reads_heuristic", "prediction_near_margin", "log_overflow",
                           "trials_total", "checks_failed_then_updated"]}
@@ -757,8 +885,11 @@ def run(ctx):
     # Measured: dyadic gamma (everything stays dyadic) ~2 s at 150 ops; gamma 9/10, 19/20: 5 s at 100 ops,
     # 17 s at 200.  Longer logs are covered by the certificate only (counted in replay_skipped_long).
     def maxreplay(case):
-        if case["mdp"]["gamma"] == NEAR_ONE or "tiny_probability" in case.get("tags", ()):
-            return 30                             # 20-30 extra bits per update
+        tg = case.get("tags", ())
+        if case["mdp"]["gamma"] == NEAR_ONE or "tiny_probability" in tg or "tiny_probability_big_reward" in tg:
+            return 30                             # 20-40 extra bits per update
+        if "nondyadic_numbers" in tg:
+            return 100
         dy = F(case["mdp"]["gamma"]).denominator in (1, 2, 4, 8)
         return (250 if tier == "quick" else 300) if dy else 100
     for i, (case, res) in enumerate(zip(cases, impl)):
@@ -776,7 +907,16 @@ def run(ctx):
             ctx.violation("C04:planner-mutated-the-problem:" + "+".join(res["mutated"]),
                           {"case": origs[i], "chain_step": steps[i], "mutated": res["mutated"],
                            "correspondence": "the model plans on a fixed MDP; plan_on changed what the caller's MDP object returns"}, found=False)
+        if res.get("stale"):
+            ctx.violation("C04:result-of-earlier-call-changed-after-later-call",
+                          {"case": origs[i], "chain_step": steps[i], "states": res["stale"],
+                           "correspondence": "policy / V / labels of a finished plan_on call answered differently after the planner was used again"}, found=False)
         cnt["margin_below_1e-9_of_values"] += int(p.margin * 10**9 < p.scale)
+        cnt["margin_below_1e-5_of_values"] += int(p.margin * 10**5 < p.scale)
+        cnt["n_equals_nA"] += int(p.n == p.nA)
+        cnt["single_action_everywhere"] += int(p.nA == 1)
+        cnt["trial_steps_over_1000"] += int(res["trials"] > 0 and res["steps"] / res["trials"] > 1000)
+        cnt["max_states"] = max(cnt["max_states"], p.n)
         margins[case["margin"]] = margins.get(case["margin"], 0) + 1
         for k, v in gen_mdp.features(case["mdp"]).items():
             if isinstance(v, bool):
@@ -792,7 +932,7 @@ def run(ctx):
         rp = case.get("repr") or {}
         shared = bool(rp.get("actions_shared")) and all(a == case["mdp"]["actions"][0] for a in case["mdp"]["actions"])
         for tg in list(case.get("tags", ())) + ["labels_" + rp.get("labels", "int")] + [k for k in
-                  ("dist_objects", "int_numbers", "no_listener", "seed_none", "touch_views") if rp.get(k)] + \
+                  ("dist_objects", "dist_shared", "fresh_planner_last", "int_numbers", "no_listener", "seed_none", "touch_views") if rp.get(k)] + \
                   (["actions_one_shared_list"] if shared else (["actions_persistent_lists"] if not rp.get("actions_tuple", True) else [])) + \
                   (["max_trial_length"] if rp.get("max_trial_length") is not None else []) + \
                   (["init_" + rp.get("init", "object")]) + (["iterations_cap"] if case["iterations"] <= 2 else []) + \
